@@ -13,8 +13,10 @@ mode=conc, semaphore kinds — real goroutines, history stamped inside the guard
     run …          => <events> gauge=<peak> free=<k>     events: +t enter, -t exit, !t exit by panic, xt refused, et own Return failed
     rogue …        => borrows=<b> returns=<r> errs=<e> free=<k>    (callers that return more than they borrowed)
 kind=pool mode=seq:
-    get            => got <id> fresh=<0|1> destroyed=<ids|-> | wait
-    put <id> | putnil => ok ;  t+ <d> => now=<t> ;  stat => created=<c> idle=<id@t,…|->
+    get | getw | getpanic => got <id> fresh=<0|1> destroyed=<ids|-> | wait destroyed=… (reached cond.Wait; taken out
+                      again) | waiting destroyed=… (getw: stays blocked) | panicked destroyed=… (create panicked)
+    put <id>|@k    => ok id=<x> [woke=<y>|woke=none]   (a waiting Get resumed and took y) ;  putnil => ok
+    t+ <d> => now=<t> ;  stat => created=<c> idle=<id@t,…|-> waiters=<w>
 kind=pool mode=conc:
     run …          => <events> created=<c> idle=<k>   events: c:r create, d:r destroy, g:t:r get, p:t:r put
 -/
@@ -321,9 +323,15 @@ def poolStat (p : Pool) : String :=
   let idle := if p.idle = [] then "-" else ",".intercalate (p.idle.map fun nd => s!"{nd.item}@{nd.lastUsed}")
   s!"created={p.created} idle={idle}"
 
+def poolStatW (p : Pool) (waiters : Nat) : String := s!"{poolStat p} waiters={waiters}"
+
+/-- destroyed list of an observation token `destroyed=<csv>` -/
+def obsDestroyed (tok : String) : Option (List Nat) := (kv? [tok] "destroyed").bind parseCsv
+
 def runPoolSeq (r : Report) (s : Section) (limit maxAge : Nat) : Report := Id.run do
   let mut p := Pool.init limit maxAge
   let mut now := 0
+  let mut waiters := 0           -- Get calls that reached `cond.Wait()` and are still there
   let mut mon : PoolMon := { limit := limit, alive := [], held := [], dead := [] }
   let mut breached := false
   let mut r := r
@@ -332,43 +340,96 @@ def runPoolSeq (r : Report) (s : Section) (limit maxAge : Nat) : Report := Id.ru
     let impl := joinSp l.obs
     let mut evs : List PEv := []
     match l.op with
-    | ["get"] =>
-      let (p', res) := p.get now
+    | ["get"] | ["getw"] | ["getpanic"] =>
+      let keep := l.op = ["getw"]
+      let cpanic := l.op = ["getpanic"]
+      let (p', res, panicked) := if cpanic then p.getCreatePanics now else ((p.get now).1, (p.get now).2, false)
       match res with
       | .got item fresh d =>
-        let exp := s!"got {item} fresh={if fresh then 1 else 0} destroyed={csv d}"
-        r := r.addCover (if fresh then "pool-get-create" else "pool-get-reuse")
+        let exp := if panicked then s!"panicked destroyed={csv d}"
+                   else s!"got {item} fresh={if fresh then 1 else 0} destroyed={csv d}"
+        r := r.addCover (if panicked then "pool-create-panics-created-stays" else if fresh then "pool-get-create" else "pool-get-reuse")
         if d ≠ [] then r := r.addCover "pool-get-destroyed-expired" d.length
+        if d.length ≥ 2 then r := r.addCover "pool-get-destroyed-several-at-once"
+        if fresh ∧ d ≠ [] then r := r.addCover "pool-get-create-after-expiry"
+        if !fresh ∧ d ≠ [] then r := r.addCover "pool-get-reuse-behind-expired"
+        -- age exactly maxAge is NOT expired (`lastUsed+maxAge < now` is strict)
+        if !fresh ∧ maxAge > 0 then
+          match p.idle.find? (·.item = item) with
+          | some nd => if nd.lastUsed + maxAge = now then r := r.addCover "pool-get-reuse-at-exactly-maxage"
+          | none => pure ()
         if exp ≠ impl then r := r.mismatch s.idx l.idx exp impl
         p := p'
       | .wait d =>
-        r := r.addCover "pool-get-would-wait"
-        if "wait" ≠ impl then r := r.mismatch s.idx l.idx "wait" impl
-        if d ≠ [] then r := r.mismatch s.idx l.idx "no destruction before waiting" (csv d)
+        r := r.addCover (if keep then "pool-get-waits-kept" else "pool-get-would-wait")
+        let exp := s!"{if keep then "waiting" else "wait"} destroyed={csv d}"
+        if exp ≠ impl then r := r.mismatch s.idx l.idx exp impl
+        p := p'
+        if keep then waiters := waiters + 1
       -- monitor on the implementation's own observation
       match l.obs with
       | ["got", id, fr, ds] =>
-        match id.toNat?, (kv? [ds] "destroyed").bind parseCsv with
+        match id.toNat?, obsDestroyed ds with
         | some i, some dl =>
           evs := dl.map PEv.destroy ++ (if fr = "fresh=1" then [PEv.create i] else []) ++ [PEv.get 0 i]
         | _, _ => r := r.mismatch s.idx l.idx "parsable-observation" impl
+      | ["panicked", ds] =>
+        match obsDestroyed ds with
+        | some dl =>
+          evs := dl.map PEv.destroy
+          -- the caller contract "create does not panic" is broken: `created` stays incremented although no
+          -- resource exists (documented observation, outside the property's quantifier) — capacity claims end here
+          if !breached then
+            breached := true
+            r := r.addCover "pool-contract-breach"
+        | none => r := r.mismatch s.idx l.idx "parsable-observation" impl
+      | [w, ds] =>
+        if w = "wait" ∨ w = "waiting" then
+          match obsDestroyed ds with
+          | some dl =>
+            evs := dl.map PEv.destroy
+            if mon.held.length < limit ∧ !breached then
+              r := r.violation s.idx l.idx s!"kind=pool Get waits although only {mon.held.length} of limit={limit} resources are in use (capacity leaked)"
+          | none => r := r.mismatch s.idx l.idx "parsable-observation" impl
+        else r := r.mismatch s.idx l.idx "parsable-observation" impl
       | ["stuck"] =>
         if !breached then
-          r := r.violation s.idx l.idx s!"kind=pool Get waits for ever although only {mon.held.length} of limit={limit} resources are in use (capacity leaked)"
-      | ["wait"] =>
-        if mon.held.length < limit ∧ !breached then
-          r := r.violation s.idx l.idx s!"kind=pool Get would wait although only {mon.held.length} of limit={limit} resources are in use"
+          r := r.violation s.idx l.idx s!"kind=pool Get neither returns nor waits on the condition variable ({mon.held.length} of limit={limit} in use)"
       | _ => r := r.mismatch s.idx l.idx "parsable-observation" impl
     | ["put", _] =>
       -- `put @k` / `put <id>`: the harness resolves which resource it gives back and prints it (`ok id=<x>`)
       match l.obs with
       | ["skip"] => r := r.addCover "pool-put-skip"
-      | ["ok", idtok] =>
+      | "ok" :: idtok :: rest =>
         match (kv? [idtok] "id").bind (·.toNat?) with
         | some i =>
           p := p.put i now
           r := r.addCover "pool-put"
           evs := [PEv.put 0 i]
+          if waiters = 0 then
+            if rest ≠ [] then r := r.mismatch s.idx l.idx s!"ok id={i}" impl
+          else
+            -- `p.cond.Signal()`: one waiting Get resumes its loop and takes the head
+            let (p', res) := p.get now
+            match res with
+            | .got item false [] =>
+              r := r.addCover "pool-put-wakes-waiter"
+              if rest ≠ [s!"woke={item}"] then r := r.mismatch s.idx l.idx s!"ok id={i} woke={item}" impl
+              p := p'
+              waiters := waiters - 1
+            | _ => r := r.mismatch s.idx l.idx "model: the woken Get takes the resource just put" impl
+            match rest with
+            | [wtok] =>
+              match kv? [wtok] "woke" with
+              | some "none" =>
+                if !breached then
+                  r := r.violation s.idx l.idx s!"kind=pool Put of resource {i} woke no waiting Get: the resource is idle while a request stays blocked (capacity not available)"
+              | some w =>
+                match w.toNat? with
+                | some wi => evs := evs ++ [PEv.get 0 wi]
+                | none => r := r.mismatch s.idx l.idx "woke=<nat>" impl
+              | none => r := r.mismatch s.idx l.idx "woke=<nat>" impl
+            | _ => r := r.mismatch s.idx l.idx "ok id=<nat> woke=<nat>" impl
         | none => r := r.mismatch s.idx l.idx "ok id=<nat>" impl
       | _ => r := r.mismatch s.idx l.idx "ok id=<nat>" impl
     | ["putnil"] =>
@@ -383,11 +444,18 @@ def runPoolSeq (r : Report) (s : Section) (limit maxAge : Nat) : Report := Id.ru
       | none => r := r.mismatch s.idx l.idx "bad-op" (joinSp l.op)
     | ["stat"] =>
       r := r.addCover "pool-stat"
-      if impl ≠ poolStat p then r := r.mismatch s.idx l.idx (poolStat p) impl
+      if impl ≠ poolStatW p waiters then r := r.mismatch s.idx l.idx (poolStatW p waiters) impl
       if !breached then
         match (kv? l.obs "created").bind (·.toInt?) with
         | some c =>
           if c > (limit : Int) then r := r.violation s.idx l.idx s!"kind=pool created={c} exceeds limit={limit}"
+          -- `created` counts exactly the living resources: in use + idle
+          match (kv? l.obs "idle") with
+          | some idl =>
+            let nidle := if idl = "-" then 0 else (idl.splitOn ",").length
+            if c ≠ ((mon.held.length + nidle : Nat) : Int) then
+              r := r.violation s.idx l.idx s!"kind=pool created={c} but {mon.held.length} resources are in use and {nidle} idle (count leaked)"
+          | none => pure ()
         | none => pure ()
     | _ => r := r.mismatch s.idx l.idx "bad-op" (joinSp l.op)
     for ev in evs do
